@@ -73,10 +73,12 @@ func (f *Filter) Execute(data interface{}) (interface{}, error) {
 	case reflect.Map:
 		newMap := reflect.MakeMap(rtype)
 
-		// TODO (mkeeler) - Update to use a MapRange iterator once Go 1.12 is usable
-		// for all of our products
-		for _, mapKey := range rvalue.MapKeys() {
-			item := rvalue.MapIndex(mapKey)
+		// a MapRange iterator hands out every entry, including those whose key
+		// is not equal to itself (NaN), which MapIndex cannot find again
+		iter := rvalue.MapRange()
+		for iter.Next() {
+			mapKey := iter.Key()
+			item := iter.Value()
 
 			if !item.CanInterface() {
 				return nil, fmt.Errorf("Map value cannot be used")
